@@ -43,7 +43,7 @@ def gen_model(rng):
             part = rng.choice([1, 2, -1, 0])
             body.append('PART %d' % part)
         elif r < 0.35:
-            resi = (rng.randint(1, 4), rng.choice(['TOL', 'THF']))
+            resi = (rng.choice([1, 2, 3, 4, -1, -12]), rng.choice(['TOL', 'THF']))
             body.append('RESI %d %s' % resi)
         el = rng.choice(ELEMS)
         nm = '%s%d' % (el, i + 1)
